@@ -213,6 +213,34 @@ type gateStore struct {
 	key     string
 	hit     chan struct{}
 	release chan struct{}
+	// the same for the next Get of a key: the caller stops BEFORE it reads
+	getKey     string
+	getHit     chan struct{}
+	getRelease chan struct{}
+}
+
+func (g *gateStore) armGet(key string) (hit <-chan struct{}, release func()) {
+	g.mu.Lock()
+	defer g.mu.Unlock()
+	g.getKey, g.getHit, g.getRelease = key, make(chan struct{}), make(chan struct{})
+	rel := g.getRelease
+	var once sync.Once
+	return g.getHit, func() { once.Do(func() { close(rel) }) }
+}
+
+func (g *gateStore) Get(key string) (any, error) {
+	g.mu.Lock()
+	var rel chan struct{}
+	if g.getKey != "" && key == g.getKey {
+		g.getKey = ""
+		rel = g.getRelease
+		close(g.getHit)
+	}
+	g.mu.Unlock()
+	if rel != nil {
+		<-rel
+	}
+	return g.Storage.Get(key)
 }
 
 func (g *gateStore) arm(key string) (hit <-chan struct{}, release func()) {
@@ -410,7 +438,7 @@ func parseCase(s string) (c *caseT, err error) {
 	} else if i < len(t) {
 		expect("late")
 		c.late = next()
-		if c.late != "bridge" && c.late != "route" && c.late != "remote" && c.late != "window" {
+		if c.late != "bridge" && c.late != "route" && c.late != "remote" && c.late != "window" && c.late != "early" {
 			panic("bad late " + c.late)
 		}
 		c.lateMid = next()
@@ -1063,6 +1091,11 @@ func runCaseInner(c *caseT) string {
 	}
 	var gateHit <-chan struct{}
 	releaseGate := func() {}
+	if c.late == "early" {
+		// the dispatcher looks up tunnelBridges, then the routing table (one storage read): holding that read opens
+		// the window in which startSourceBridge of another request registers the bridge and then the route
+		gateHit, releaseGate = w.gs.armGet("tunnox:tunnel_waiting:" + tunnelID)
+	}
 	if c.late == "window" {
 		// the requester's acknowledgement is written after the dispatcher's own bridge/route look-ups and before
 		// handleTargetBridge / startSourceBridge look again: holding that write opens exactly this window
@@ -1091,7 +1124,7 @@ func runCaseInner(c *caseT) string {
 		}
 		return "err"
 	}
-	if c.late == "window" {
+	if c.late == "window" || c.late == "early" {
 		select {
 		case <-gateHit:
 			lm, listed := final[c.lateMid]
@@ -1235,19 +1268,21 @@ func runCaseInner(c *caseT) string {
 		// Bridge.Start is still launching its second copy goroutine dereferences a nil forwarder — not C04's subject)
 		waitEcho(r, src)
 	}
-	if !data {
-		// anything after the ack that is not another acknowledgement packet counts as traffic (the late cross-node
-		// path acknowledges a second time in forwardToSourceNode)
-		for len(rest) > 0 {
-			a, more := readAck(rest)
-			if a != "ok" && a != "fail" {
+	// how many acknowledgement packets the requester was sent (one TunnelOpen, one acknowledgement: a further one
+	// reaches a client that is already in stream mode as tunnel payload); other bytes after them count as traffic
+	acks := 0
+	for buf := r.cli.snapshot(); len(buf) > 0; {
+		a, more := readAck(buf)
+		if a != "ok" && a != "fail" {
+			if !data && a != "none" {
 				data = true
-				break
 			}
-			rest = more
+			break
 		}
+		acks++
+		buf = more
 	}
-	return fmt.Sprintf("ack %s att %s data %s ret %s", ack, att, b2s(data), ret)
+	return fmt.Sprintf("ack %s acks %d att %s data %s ret %s", ack, acks, att, b2s(data), ret)
 }
 
 // ---------------------------------------------------------------- generators
@@ -1321,7 +1356,7 @@ func lateMatrix() []*caseT {
 		{"F", "", ""}, {"F", "s3cretF", ""}}
 	for _, id := range ids {
 		for _, cr := range creds {
-			for _, kind := range []string{"bridge", "route", "remote", "window"} {
+			for _, kind := range []string{"bridge", "route", "remote", "window", "early"} {
 				for _, mid := range []string{"M", "F"} {
 					out = append(out, &caseT{pl: "ok", hs: id.hs, cid: id.cid, rmid: cr[0], rsec: cr[1], rtok: cr[2],
 						maps: []mappingT{mapM, mapF}, ts: "none", late: kind, lateMid: mid})
@@ -1553,9 +1588,9 @@ func randomCases(r *vc.Rand, n int) []*caseT {
 			c.ts, c.tsMid, c.served = "none", "", false
 		} else if c.ts == "none" && !c.asserts && r.Intn(2) == 0 {
 			// the tunnel appears while the request polls
-			c.late = []string{"bridge", "window", "route", "remote", "window"}[r.Intn(5)]
+			c.late = []string{"bridge", "window", "route", "remote", "window", "early"}[r.Intn(6)]
 			c.lateMid = vc.Pick(r, ids)
-			if c.late == "bridge" || c.late == "window" {
+			if c.late == "bridge" || c.late == "window" || c.late == "early" {
 				kind := c.late
 				// a bridge can only be opened by the rightful listen client of a usable, listed mapping
 				c.late = ""
